@@ -343,10 +343,6 @@ def tree_txt(tree):
     return '(%s %s)' % (node_txt(tree.node), common.sx_dumps(common.e_meta(tree.metadata)) if tree.metadata else '()')
 
 
-def wire_ok(*atoms_or_graph):
-    return True
-
-
 def drive(exe, lines):
     """One run of an extracted driver over pre-rendered request lines (own twin of common._drv_worker,
     usable inside pmap workers)."""
@@ -384,7 +380,6 @@ def layout_kind(e):
 
 def configure_outcome(g, top, m):
     """('ok', tree) | ('layout', k) | ('hang',) | ('exc', class name) of penman.layout.configure."""
-    from penman import layout
     from penman.exceptions import LayoutError
     try:
         return ('ok', timed(_configure, g, top, m, seconds=HANG_S))
@@ -447,15 +442,20 @@ def _jsonable(x):
 class Batch:
     """Collects correspondence requests of one worker and diffs them in one driver run."""
 
+    FLUSH = 20000
+
     def __init__(self, exe):
         self.exe = exe
         self.lines, self.expect = [], []
+        self.total, self.mism = 0, []
 
     def add_configure(self, info, g, top, cfg, case):
         if self.exe is None or info.wm is None:
             return
         self.lines.append('(5 %s %s %s)' % (info.wm, graph_txt(g), opt_atom_txt(top)))
         self.expect.append((outcome_txt(cfg), 'configure', cfg, case))
+        if len(self.lines) >= self.FLUSH:
+            self.flush()
 
     def add_raw(self, line, expect_txt, what, canon_impl, case, canon_model):
         if self.exe is None:
@@ -464,9 +464,15 @@ class Batch:
         self.expect.append((expect_txt, what, (canon_impl, canon_model), case))
 
     def run(self):
-        """-> (n requests, [mismatch dicts])"""
+        """-> (n requests, [mismatch dicts]) over everything queued since the batch was created"""
+        self.flush()
+        return self.total, self.mism
+
+    def flush(self):
+        if not self.lines:
+            return
         outs = drive(self.exe, self.lines)
-        mism = []
+        mism = self.mism
         for (exp, what, payload, case), got in zip(self.expect, outs):
             if got == exp:
                 continue
@@ -478,9 +484,9 @@ class Batch:
             if ci != cm:
                 mism.append({'what': what + ' differs', 'case': case() if callable(case) else case,
                              'impl': _jsonable(ci), 'model': _jsonable(cm)})
-        n = len(self.lines)
+        self.total += len(self.lines)
+        del mism[8:]
         self.lines, self.expect = [], []
-        return n, mism
 
 
 # ============================================================================================
@@ -723,6 +729,17 @@ def exh_base_graphs(tier):
             for ex in extras2:
                 if ex != e:
                     out.append(('v2+1', base + [ex]))
+    return dedupe_graphs(out)
+
+
+def dedupe_graphs(graphs):
+    """Drop graphs that are the same SET of triples as an earlier one (their orders are enumerated anyway)."""
+    seen, out = set(), []
+    for kind, base in graphs:
+        k = frozenset((s, r, common.atom_key(t)) for s, r, t in base)
+        if k not in seen:
+            seen.add(k)
+            out.append((kind, base))
     return out
 
 
@@ -1067,7 +1084,8 @@ def run(chk):
                 '[Push v,Push v]} to every triple (v over the variables) x all permutations of the triple list x every '
                 'top, on all well-formed connected graphs with <=3 triples over variables {a,b} (roles :ARG0 and the '
                 'inverted :ARG1-of, concepts x/None/spelled-like-a-variable, constants 0, None, string); 4-triple '
-                'graphs with the 5-list alphabet (quick: default model; thorough: all models and 3-variable chains). '
+                'graphs with the 5-list alphabet, Push over the ends of the triple (quick: default model, 3 of the 24 orders; '
+                'thorough: default model all orders, other models 3 orders, plus 3-variable/5-triple graphs in 20 orders). '
                 '(2) mark: random well-formed connected graphs (<=5 variables quick, <=8 thorough), markers genuine '
                 '(decode of an encoding from a random top) or absent, then 1-4 edit operations (drop a subset, add '
                 'Push(v) for any variable anywhere, the same Push twice, add POPs, swap marker lists, shuffle / '
@@ -1093,13 +1111,14 @@ def run(chk):
                 items.append((exe, model, kind, base, True, False, 0, rng.getrandbits(32)))
         else:   # 4 triples: 5-list alphabet (no double push)
             for model in (['default'] if quick else MODEL_NAMES):
-                items.append((exe, model, kind, base, False, True, 3 if quick else 0, rng.getrandbits(32)))
+                full = (not quick) and model == 'default'      # thorough: all 24 orders under the default model
+                items.append((exe, model, kind, base, False, True, 0 if full else 3, rng.getrandbits(32)))
     if not quick:
         R = [':ARG0', ':ARG1-of']
         for e1 in [('a', R[0], 'b'), ('b', R[1], 'a')]:
             for e2 in [('b', R[0], 'c'), ('c', R[1], 'b'), ('a', R[0], 'c'), ('c', R[0], 'a')]:
                 base = [('a', INSTANCE, 'x'), e1, ('b', INSTANCE, 'c'), e2, ('c', INSTANCE, None)]
-                items.append((exe, 'default', 'v3', base, False, True, 40, rng.getrandbits(32)))
+                items.append((exe, 'default', 'v3', base, False, True, 20, rng.getrandbits(32)))
     run_stream(chk, 'exh', exh_worker, items)
     chk.stat('exh:work-items', len(items))
 
@@ -1108,7 +1127,7 @@ def run(chk):
     nitems = 64 if quick else 1400
     items = [(exe, rng.getrandbits(48), per, 5 if (quick or i % 2) else 8, MODEL_NAMES) for i in range(nitems)]
     run_stream(chk, 'mark', mark_worker, items)
-    run_stream(chk, 'regress', regress_worker, [(exe, m) for m in MODEL_NAMES] * 1 + [(None, 'default')])
+    run_stream(chk, 'regress', regress_worker, [(exe, m) for m in MODEL_NAMES])
 
     # ---- (3) arbitrary triple lists -----------------------------------------------------------
     nitems = 48 if quick else 600
@@ -1119,8 +1138,9 @@ def run(chk):
     run_stream(chk, 'arb-exh', arbexh_worker, items)
 
     chk.exhaustive = False     # exhaustive only up to the stated size bound; the random streams are samples
-    chk.notes.append('the exh-* streams enumerate their stated family completely (quick: 4-triple graphs use 3 of the '
-                     '24 orders); everything else is sampled')
+    chk.notes.append('exh-v1 / exh-v2 enumerate their stated family completely (graphs, orders, tops, marker assignments); '
+                     'exh-v2+1 / exh-v3 enumerate all marker assignments and tops on a sample of the orders except under '
+                     'the default model in the thorough tier; everything else is sampled')
     chk.notes.append('no-op model: in scope for termination / only-LayoutError / error-precision / one-node-per-variable; '
                      'the content clause is for deinverting models, so for no-op the decoded triples are compared modulo '
                      'edge orientation as an extra and differences are only counted (stat *:noop-content), never failures')
